@@ -2,4 +2,5 @@ import CachedModel.Basic
 import CachedModel.Sketch
 import CachedModel.Admission
 import CachedModel.State
+import CachedModel.Glue
 import CachedModel.Driver
